@@ -122,6 +122,7 @@ CLAIMS["C01"] = (
 TECH_EXTRA["C02"] = "; the attribute-word and timestamp obligations are VCs generated from the AST by pyvc/bvexec.py (bit-vectors) and pyvc/floatvc.py (real arithmetic with a stated binary64 rounding-error model), discharged by z3"
 TECH_EXTRA["C08"] = "; plus two BOUNDED stand-ins on the real code (create/append histories; stream sections rewritten and read back against an independent encoder), labelled bounded, never counted as proved"
 TECH_EXTRA["C06"] = "; plus two BOUNDED stand-ins on the real code (stream sections and whole archives written by an independent encoder / COPY-coder writer), labelled bounded, never counted as proved"
+TECH_EXTRA["C07"] = "; plus one BOUNDED stand-in (stream sections re-serialised by the real writer and read back against the description they came from), labelled bounded"
 TECH_EXTRA["C03"] = "; plus one BOUNDED stand-in (exhaustive small path names against an os.path oracle), labelled bounded"
 TECH_EXTRA["C16"] = "; plus one BOUNDED stand-in (exhaustive small archive names against a lexical oracle), labelled bounded"
 TECH_EXTRA["C04"] = "; plus one BOUNDED stand-in (one altered byte in archives from an independent writer), labelled bounded"
